@@ -57,7 +57,7 @@ def job_dfa(job, n, k, N):
         gen[b] = job.call(generate_language, Dm, b, replay=('dfa', {'D': view.to_json, 'n': b}))
     job.lifted()
     nd = c.native('dfa_algorithms')
-    job.differential(20, lambda mv: {b: c.conc(res[b], mv) for b in res}, lambda mv: {b: nd.dfa_words_up_to_n(nat.mk_dfa(view.to_json(mv), c.native('dfa')), b) for b in res}, 'dfa_words_up_to_n')
+    job.differential(20, lambda mv: {b: c.conc(res[b], mv) for b in res}, lambda mv: {b: nd.dfa_words_up_to_n(nat.mk_dfa(view.to_json(mv), c.native('dfa')), b) for b in res}, 'dfa_words_up_to_n', replay=('dfa', {'D': view.to_json, 'n': N}))
     for b in range(N + 1):
         rp = ('dfa', {'D': view.to_json, 'n': b})
         if res[b] is not None:
@@ -118,7 +118,7 @@ def job_nfa(job, n, k, N, eps, partial):
         gen[b] = job.call(generate_language, Nm, b, replay=rp)
     job.lifted()
     nn = c.native('nfa_algorithms')
-    job.differential(20, lambda mv: {b: c.conc(res[b], mv) for b in res}, lambda mv: {b: nn.nfa_words_up_to_n(nat.mk_nfa(view.to_json(mv), c.native('nfa')), b) for b in res}, 'nfa_words_up_to_n')
+    job.differential(20, lambda mv: {b: c.conc(res[b], mv) for b in res}, lambda mv: {b: nn.nfa_words_up_to_n(nat.mk_nfa(view.to_json(mv), c.native('nfa')), b) for b in res}, 'nfa_words_up_to_n', replay=('nfa', {'N': view.to_json, 'n': N}))
     for b in range(N + 1):
         rp = ('nfa', {'N': view.to_json, 'n': b})
         if res[b] is not None:
@@ -237,7 +237,7 @@ def job_cfg(job, kind, N, family=None, nsym=None, variables=None, pairs=None, hi
                        lambda w: sems2[w].derives(variables[which]), N, ('cfg_history', {'G': dec, 'second_start': variables[1], 'n': N}))
     ncfg = c.native('cfg_algorithms')
     job.differential(15, lambda mv: {b: c.conc(res[b], mv) for b in res},
-                     lambda mv: (lambda Gn: {b: ncfg.cfg_words_up_to_n(Gn, b) for b in res})(nat.mk_cfg(dec(mv), c.native('cfg'))), 'cfg_words_up_to_n')
+                     lambda mv: (lambda Gn: {b: ncfg.cfg_words_up_to_n(Gn, b) for b in res})(nat.mk_cfg(dec(mv), c.native('cfg'))), 'cfg_words_up_to_n', replay=('cfg', {'G': dec, 'n': N}))
     sems = {w: GrammarSem(entries, variables, w) for w in universe}
     for b in range(N + 1):
         rp = ('cfg', {'G': dec, 'n': b})
